@@ -132,3 +132,24 @@ extern "C" void h_ReadInteger_Number()
     }
     __CPROVER_assert(g_cri_calls == 1 && g_cri_delims == delims, "C09 what follows the token is checked once against the caller's delimiter list");
 }
+
+/* C05: ReadComment returns on every input - including a stream that ends (and keeps failing) at any point inside an open comment,
+ * and a stream that never ends: every round of its loop either returns or advances the length counter.  The stream is arbitrary
+ * (any character or end of input at every read; a failed read leaves the variable as it was, as in the library); the loop
+ * bound is the scaled MAX_COMMENT_LENGTH, checked with unwinding assertions: a round that does not count makes them fail. */
+extern "C" void h_ReadComment_terminates()
+{
+    IN(int, in_state); IN(int, in_which);
+    __CPROVER_assume(in_state >= 0 && in_state <= 7);
+    g_stream_arbitrary = 1;
+    istream in; in._m_state = in_state; in._m_have = 0; in._m_consumed = 0;
+    std::string s; g_skip_calls = 0;
+    if (in_which) {
+        const char *r = ReadComment(in, s);
+        __CPROVER_assert(r == 0 || r == s.c_str(), "ReadComment returns nothing or the caller's buffer");
+        __CPROVER_assert(g_skip_calls <= 1, "the recovery routine runs at most once, after the length limit");
+    } else {
+        Severity sv = ReadPcd(in);
+        __CPROVER_assert(sv == SEVERITY_NULL || sv == SEVERITY_WARNING, "C05 a print control directive is read or a warning is returned, in at most four reads");
+    }
+}
